@@ -396,6 +396,28 @@ def msl_judge(ctx, W):
     return out, ist["runs"] + ost["runs"] + zst["runs"], ist["distinct"] + ost["agree"] + zst["agree"]
 
 
+MAX_REPORTS = 30
+
+
+def cap_violations(ctx):
+    """a systematic break (e.g. every Restrict clamp off by one) fails dozens of programs: print the first MAX_REPORTS
+    distinct sites, count the rest (known findings are never cut off)"""
+    orig = ctx.violation
+    state = {"n": 0, "dropped": 0}
+
+    def limited(what, files=None, found_input=True, key=None, broken=None):
+        for k in ctx._known:
+            if k.get("status") == "open" and key is not None and k.get("match") == key:
+                return orig(what, files=files, found_input=found_input, key=key, broken=broken)
+        if state["n"] >= MAX_REPORTS:
+            state["dropped"] += 1
+            ctx.cov["violations_not_printed"] = state["dropped"]
+            return False
+        state["n"] += 1
+        return orig(what, files=files, found_input=found_input, key=key, broken=broken)
+    ctx.violation = limited
+
+
 class CtxLike:
     """what the worker threads may use of ctx (forked in the main thread: no shared mutable state)"""
     def __init__(self, ctx, tag):
@@ -411,6 +433,7 @@ def run(ctx):
     def lap(name):
         T[name] = round(time.time() - t_last[0], 1)
         t_last[0] = time.time()
+    cap_violations(ctx)
     tools = vcheck.build_harness(["nagadrive", "goextract", "spvdrive", "hlsldrive", "msldrive", "glsldrive"])
     lap("build_harness")
     ok, failed, log = vcheck.proof_step(
